@@ -116,6 +116,10 @@ def retErr : CPc → Bool
   | .returned (.err _) => true
   | _ => false
 
+def retd : CPc → Bool
+  | .returned _ => true
+  | _ => false
+
 structure Inv (s : St) : Prop where
   pre : (s.cpc = .hs ∨ s.cpc = .openStr) → s.wat = .none ∧ s.callerClosed = false
   noStr : s.wat = .none → s.send = .idle ∧ s.recv = .idle ∧ s.upl = .none ∧ s.reqDone = false
@@ -132,10 +136,12 @@ structure Inv (s : St) : Prop where
   cc : s.callerClosed = true → s.upl = .none ∧ s.hasBody = true
   ub : s.upl ≠ .none → s.hasBody = true
   rs : (s.cpc = .readResp ∨ s.cpc = .returned .resp) → s.wat ≠ .none
+  re : retErr s.cpc = true → s.reqDone = true ∨ s.ctx.isSome = true
+  rd : s.reqDone = true → joining s.cpc = true ∨ retd s.cpc = true
   b1 : s.hasBody = true → (s.cpc = .readResp ∨ s.cpc = .returned .resp) → s.upl ≠ .none
   b2 : s.hasBody = true → (failing s.cpc = true ∨ retErr s.cpc = true) → s.upl ≠ .none ∨ s.callerClosed = true
 
 theorem inv_init (b : Bool) : Inv (init b) := by
-  constructor <;> simp [init, failing, joining, retErr]
+  constructor <;> simp [init, failing, joining, retErr, retd]
 
 end Req.Lemmas.CancelH3
